@@ -502,6 +502,32 @@ def subpath_constraints(rng, g, max_c=2, contiguous_only=False):
     return out
 
 
+def dag_with_selfloops(rng, max_nodes=5, max_edges=6, max_routes=2, wmax=3, float_w=False):
+    """A layered DAG whose only cycles are self-loops: some routes go round a loop at an inner node 1-3 times."""
+    g = dag_layered(rng, max_nodes=max_nodes, max_edges=max_edges, max_routes=max_routes, wmax=wmax, float_w=float_w, zero_edge_p=0.0)
+    routes = [list(r) for r in g["routes"]][:3]
+    weights = list(g["weights"])[:3]
+    ends = {r[0] for r in g["routes"]} | {r[-1] for r in g["routes"]}
+    inner = [x for x in g["nodes"] if any(x in r[1:-1] for r in routes) and x not in ends]
+    if not inner:
+        # a loop at a source or sink would take away its role: no such graph here
+        return digraph_cyclic(rng, max_nodes=max_nodes, max_edges=max_edges, max_routes=max_routes, wmax=wmax, float_w=float_w, flower_p=0.0)
+    for x in rng.sample(inner, min(len(inner), rng.randint(1, 2))):
+        for i, r in enumerate(routes):
+            if x in r and rng.random() < 0.7:
+                j = r.index(x)
+                routes[i] = r[:j] + [x] * rng.randint(1, 3) + r[j:]
+    flow = _flow_from_routes(routes, weights)
+    order = [(u, v) for u, v, _ in g["edges"] if (u, v) in flow] + [e for e in flow if e[0] == e[1]]
+    rng.shuffle(order)
+    nodes = []
+    for u, v in order:
+        for y in (u, v):
+            if y not in nodes:
+                nodes.append(y)
+    return {"kind": "digraph", "nodes": nodes, "edges": _edges_json(flow, order), "routes": routes, "weights": weights}
+
+
 def digraph_parallel(rng, max_parallel=3):
     """Two strongly connected parts (each a single node, a self-loop, a 2-cycle or a 3-cycle) joined by 2..max_parallel
     parallel edges between *different* node pairs, an entry into the first part, an exit from the second one and,
